@@ -42,7 +42,7 @@ def _work(job):
   return out
 
 
-def run_tv(prop, families, functions, assumptions, design_ref, explanation_extra=''):
+def run_tv(prop, families, functions, assumptions, design_ref, explanation_extra='', extra_fn=None):
   """families: {name: (n_quick, n_thorough, K or None)}"""
   t0 = time.time()
   out = fw.Outcome(prop, 'translation_validation', t0)
@@ -122,6 +122,8 @@ def run_tv(prop, families, functions, assumptions, design_ref, explanation_extra
                       'all databases within the bound. ' + explanation_extra),
       'design_ref': design_ref,
   })
+  if extra_fn:
+    extra_fn(out)
   out.assumptions = assumptions
   ne = counts.get('not_encodable', 0)
   if total_preds and ne > 0.4 * total_preds:
